@@ -157,7 +157,10 @@ def general_cases(rnd, n, prefix, targets=True, reports=True, ors=False, rich=Tr
         # selectors are evaluated on a graph rdflib parsed separately: blank nodes get other labels there
         # (known finding KF.C10.bnodeselector), so shape-map cases are drawn over IRI nodes
         shapemap = targets and rnd.random() < .2
-        T = gen.general_graph(rnd, max_nodes=max_nodes, rich_literals=rich, bnodes=not shapemap)
+        if not shapemap and rnd.random() < .2:
+            T = gen.dense_graph(rnd)
+        else:
+            T = gen.general_graph(rnd, max_nodes=max_nodes, rich_literals=rich, bnodes=not shapemap)
         cfg = gen.switches(rnd, inverse=inverse, ors=ors)
         if targets:
             target_variants(rnd, T, cfg, shapemap)
@@ -323,7 +326,7 @@ def check_c10(out, tier):
     for i in range(300 * k):
         ip = rnd.choice([M.RDF_TYPE, M.RDF_TYPE, M.EX + "isA", "http://www.wikidata.org/prop/direct/P31"])
         r = rnd.random()
-        T = gen.general_graph(rnd, inst_prop=ip, rich_literals=False, bnodes=(r < .55))
+        T = gen.general_graph(rnd, inst_prop=ip, rich_literals=False, bnodes=(r < .55), odd_names=True)
         if ip != M.RDF_TYPE and rnd.random() < .6:     # rdf:type must then be an ordinary property
             subs = sorted({s for s, p, o in T})
             for s in rnd.sample(subs, min(2, len(subs))):
